@@ -124,6 +124,8 @@ add("lang", "block", "{ _Alignas(4) int *lq%d; }", "{ static _Alignas(2) short *
 add("lang", "block", "{ int gi = 0; { extern long gi; } }", "{ int gf = 0; { extern int gf; } }", "{ int gd = 0; { extern float gd; } }", "{ int gfn2 = 0; { int gfn2(int); } }",
     "{ typedef int garr; { extern int garr[5]; } }", "{ enum { gl }; { extern int gl; } }")
 
+add("lang", "file", "struct e%d { _Bool b:2; };", "struct e%d { int a; _Bool :3; };", "union e%d { _Bool b:8; int k; };")
+
 # ---- unsupported features ------------------------------------------------------------------------------------
 add("unsup", "file", "_Atomic int q%d;", "_Atomic(int) q%d;", "int _Atomic q%d;", "_Complex double q%d;", "double _Complex q%d;", "long double q%d = 1.0L;", "struct __attribute__((aligned(8))) ua%d { char c; };",
     "struct __attribute__((packed)) up%d { int a:3; };", "__attribute__((aligned(8))) int q%d;", "[[gnu::packed]] int q%d;", "__asm__(\"nop\");", "long double q%d(long double a) { return a + 1; }",
